@@ -771,7 +771,7 @@ fn main() {
 		}
 		run.require("compactions_that_moved_tail", compactions.load(Ordering::SeqCst), 2);
 		run.require("compaction_at_spending_head_scenarios", run.counter("compaction_at_spending_head_scenarios"), run.tier.pick(2, 8));
-		run.require("followers brought up from the state archive of the subject, then fed the blocks above it", run.counter("compaction_scenarios.followers_brought_up_from_the_state_archive"), run.tier.pick(2, 8));
+		run.require("followers brought up from the state archive of the subject, then fed the blocks above it", run.counter("compaction_scenarios.followers_brought_up_from_the_state_archive"), run.tier.pick(2, 4));
 		run.require("compaction scenarios with the spent pairs created at the horizon block", run.counter("compaction_scenarios_with_pairs_created_at_the_horizon_block"), run.tier.pick(3, 6));
 		run.require(
 			"old outputs spent inside the horizon window whose sibling was pruned long before",
